@@ -2,6 +2,7 @@ import ModVerif.Drv.Util
 import ModVerif.Drv.TlogUtil
 import ModVerif.Model.Tlog
 import ModVerif.Model.TlogNote
+import ModVerif.Spec.RFC6962
 namespace ModVerif.Drv.Tlog
 open ModVerif ModVerif.Drv ModVerif.Drv.TlogUtil ModVerif.Tlog ModVerif.TlogNote
 
@@ -68,6 +69,28 @@ def handle : Handler
     pure (match unmarshalJSON s with
       | some h => xh h
       | none => "err")
+  -- the independent specification (Spec/RFC6962.lean), validated against the harness's own RFC code and the real package
+  | "specmth", [r] => do let r ← records r; pure (xh (RFC6962.mth nodeH emptyH (r.map leafH)))
+  | "specpath", [m, r] => do let m ← m.toNat?; let r ← records r; pure (xhList (RFC6962.path nodeH emptyH m (r.map leafH)))
+  | "specproof", [m, r] => do let m ← m.toNat?; let r ← records r; pure (xhList (RFC6962.proof nodeH emptyH m (r.map leafH)))
+  | "specincl", [p, t, th, n, h] => do
+    let p ← hxList p; let t ← int? t; let th ← hx th; let n ← int? n; let h ← hx h
+    pure (showBool (if t < 0 || n < 0 then false else RFC6962.verifyInclusion nodeH p t.toNat n.toNat h th))
+  | "speccons", [p, t, th, n, h] => do
+    let p ← hxList p; let t ← int? t; let th ← hx th; let n ← int? n; let h ← hx h
+    pure (showBool (if t < 1 || n < 1 || n > t then false
+      else if n == t then p.isEmpty && th == h
+      else RFC6962.verifyConsistency nodeH p n.toNat t.toNat h th))
+  | "specaccincl", [p, t, th, n, h] => do
+    let p ← hxList p; let t ← int? t; let th ← hx th; let n ← int? n; let h ← hx h
+    pure (showBool (if t < 0 || n < 0 then false else decide (RFC6962.AcceptIncl nodeH p t.toNat n.toNat h th)))
+  | "specacccons", [p, t, th, n, h] => do
+    let p ← hxList p; let t ← int? t; let th ← hx th; let n ← int? n; let h ← hx h
+    pure (showBool (if t < 0 || n < 0 then false else decide (RFC6962.AcceptCons nodeH p t.toNat n.toNat h th)))
+  | "speclayout", [n] => do
+    let n ← n.toNat?
+    let l := RFC6962.layout n
+    pure (if l.isEmpty then "_" else ",".intercalate (l.map fun (a, b) => s!"{a}.{b}"))
   | _, _ => none
 
 end ModVerif.Drv.Tlog
